@@ -22,6 +22,9 @@ pub enum Op {
     Remove { f: usize, how: u8 },
     Reindex,
     Config { cfg: Cfg },
+    /// configuration change as the language server performs it: `update_config`, then every live
+    /// file is set again with its identical text (`reload_workspace_files`)
+    ConfigReload { cfg: Cfg },
     Resubmit { f: usize },
     ResubmitBatch { fs: Vec<usize> },
     EditRestore { f: usize, v: u32 },
@@ -130,6 +133,12 @@ impl World {
                 self.cfg = cfg.clone();
                 self.analysis.update_config(Arc::new(emmyrc_for(cfg, &self.root, self.with_lib)));
             }
+            Op::ConfigReload { cfg } => {
+                self.cfg = cfg.clone();
+                self.analysis.update_config(Arc::new(emmyrc_for(cfg, &self.root, self.with_lib)));
+                let items: Vec<(usize, u32)> = self.cur.iter().enumerate().filter_map(|(f, v)| v.map(|v| (f, v))).collect();
+                self.load(&items, true);
+            }
             Op::Resubmit { f } => {
                 if let Some(Some(v)) = self.cur.get(*f).copied() {
                     self.load(&[(*f, v)], false);
@@ -193,6 +202,20 @@ impl World {
 
 fn gen_cfg(r: &mut Rng) -> Cfg {
     Cfg { variant: *r.pick(&[0, 0, 0, 1, 2, 3, 4]) }
+}
+
+/// Configuration for a mid-history change. Variants that change how text is *parsed* (language
+/// level, require-like / special functions, non-standard symbols) only take effect on files that
+/// are set again - `update_config` alone does not re-parse, the server always reloads - so they are
+/// only drawn together with the reload.
+fn gen_cfg_change(r: &mut Rng) -> Op {
+    let v = *r.pick(&[0u32, 0, 1, 2, 3, 4, 5, 6, 5, 6]);
+    let parse_relevant = matches!(v % 7, 1 | 2 | 5 | 6);
+    if parse_relevant || r.chance(1, 2) {
+        Op::ConfigReload { cfg: Cfg { variant: v } }
+    } else {
+        Op::Config { cfg: Cfg { variant: v } }
+    }
 }
 
 pub fn generate(prop: &str, seed: u64) -> HistSpec {
@@ -261,7 +284,7 @@ pub fn generate(prop: &str, seed: u64) -> HistSpec {
                     }
                     2 => Op::Remove { f: r.usize_below(nf), how: r.below(3) as u8 },
                     3 => Op::Reindex,
-                    4 => Op::Config { cfg: gen_cfg(&mut r) },
+                    4 => gen_cfg_change(&mut r),
                     5 => Op::Resubmit { f: r.usize_below(nf) },
                     6 => Op::EditRestore { f: r.usize_below(nf), v: r.below(VARIANTS as u64) as u32 },
                     _ => Op::ResubmitBatch { fs: (0..nf).filter(|_| r.chance(1, 2)).collect() },
@@ -539,7 +562,7 @@ pub fn judge_once(prop: &str, spec: &HistSpec) -> Judged {
             if survivors.len() < spec.files.len() {
                 c("probe.history_removed_files");
             }
-            if spec.ops.iter().any(|o| matches!(o, Op::Config { .. })) {
+            if spec.ops.iter().any(|o| matches!(o, Op::Config { .. } | Op::ConfigReload { .. })) {
                 c("probe.history_changed_config");
             }
             lines = o.lines.len();
